@@ -42,6 +42,8 @@ package worker
 //@   on call invoke context.Context.Err(_) ret (e): live = (e == nil)
 //@   before call (*WorkerToken).doOnce(_, _, _): assert @no_attempt_after_cancel attempts == 0 || live
 //@   before call context.WithTimeout(_, d): assert @backoff_bounds 1000000000 <= d && d <= 30100000000
+//@   before call context.WithTimeout(parent, _): assert @backoff_pause_ends_when_the_caller_gives_up parent == baseCtx
+//@   before call invoke context.Context.Err(c): assert @cancellation_is_read_from_the_callers_context c == baseCtx
 //@   loop 0 sig "for i := 0; i < retries; i++" invariant attempts == i && 0 <= i && retries <= effRetries(old(t.tconf.Retries)) && (retries >= 0 ==> i <= retries) && (retries < 0 ==> i == 0)
 //@   loop 0 invariant i > 0 ==> lastErr != nil && httperror.Temporary(lastErr) && last == lastErr
 //@   loop 0 invariant 1000000000.0 <= delay && delay <= 30100000000.0
